@@ -358,6 +358,7 @@ type c16Act struct {
 	maxPos  int
 	visible map[string][]int
 	inList  bool
+	lhsType string // kind 0: declared type of the nonterminal
 }
 
 type c16Part struct {
@@ -380,10 +381,45 @@ type c16Rule struct {
 }
 
 type c16Gram struct {
-	nts   [][]*c16Rule // nts[i] = alternatives of nonterminal N<i>
-	terms []string
-	acts  map[string]*c16Act
-	nact  int
+	nts      [][]*c16Rule // nts[i] = alternatives of nonterminal N<i>
+	terms    []string
+	acts     map[string]*c16Act
+	nact     int
+	termType map[string]string // Go value type of every terminal (string, int, *TV)
+	ntType   []string          // Go value type of every nonterminal
+	flag     bool              // declares a template parameter: the compiler runs the instantiation pass
+}
+
+var c16Types = []string{"string", "int", "*TV"}
+
+// c16Hash is the int carried by int-typed symbols (the same function is compiled into the generated package).
+func c16Hash(core string) int {
+	h := 7
+	for i := 0; i < len(core); i++ {
+		h = (h*31 + int(core[i])) % 1000000007
+	}
+	return h
+}
+
+// c16Show is what VShow prints for a value of the given declared type built from `core`.
+func c16Show(ty, core string) string {
+	switch ty {
+	case "int":
+		return fmt.Sprintf("i=%d", c16Hash(core))
+	case "*TV":
+		return "t=" + core
+	}
+	return "s=" + core
+}
+
+func c16Conv(ty string) string {
+	switch ty {
+	case "int":
+		return "VI"
+	case "*TV":
+		return "VT"
+	}
+	return "VS"
 }
 
 func (g *c16Gram) ntName(i int) string { return fmt.Sprintf("N%d", i) }
@@ -514,6 +550,14 @@ func c16GenGram(r *rand.Rand) *c16Gram {
 	leads := []string{"P", "Q", "R", "S", "T", "U", "V", "W", "X", "Y", "Z"}
 	g.terms = inner[:4+r.Intn(5)]
 	g.nts = make([][]*c16Rule, nt)
+	g.flag = r.Intn(2) == 0
+	g.termType = map[string]string{}
+	for _, t := range append(append(append([]string{}, inner...), leads...), "COMMA") {
+		g.termType[t] = c16Types[r.Intn(len(c16Types))]
+	}
+	for i := 0; i < nt; i++ {
+		g.ntType = append(g.ntType, c16Types[r.Intn(len(c16Types))])
+	}
 	gn := &c16Gen{r: r, g: g}
 	nl := 0
 	for i := 0; i < nt; i++ {
@@ -534,6 +578,7 @@ func c16GenGram(r *rand.Rand) *c16Gram {
 			rule.parts = gn.seq(i, 0, n, leads[nl])
 			nl++
 			rule.end = gn.newAct(0)
+			rule.end.lhsType = g.ntType[i]
 			if !gn.hasMid && r.Intn(3) == 0 && len(rule.parts) > 1 {
 				// a state marker somewhere after the first symbol
 				at := 1 + r.Intn(len(rule.parts))
@@ -749,11 +794,31 @@ func c16PickRefsFor(r *rand.Rand, a *c16Act, scopeParts []*c16Part, firstOK bool
 		}
 		a.refs = append(a.refs, ref)
 	}
-	// aliases that span several positions (groups, choices): always look at both ends
+	// aliases that span several positions (groups, choices): always look at both ends, and at the VALUE when at
+	// most one member can be present (the members have different declared types)
 	for _, nm := range names {
 		if len(a.visible[nm]) > 1 && r.Intn(3) != 0 {
 			a.refs = append(a.refs, c16Ref{id: nm, prop: 'e'}, c16Ref{id: nm, prop: 'o'})
+			ps := map[int]bool{}
+			for _, p := range a.visible[nm] {
+				ps[p] = true
+			}
+			if c16MaxActive(scopeParts, ps) <= 1 {
+				a.refs = append(a.refs, c16Ref{id: nm, prop: 'v'})
+			}
 			break
+		}
+	}
+	// next to an inline list: the VALUES at the positions that also exist inside the list element (the element has
+	// a numbering of its own; its symbols have other types)
+	if a.kind != 2 {
+		for _, p := range scopeParts {
+			if p.kind == pkList && r.Intn(3) != 0 {
+				for k := 0; k < len(p.alts[0]) && k+1 < a.maxPos; k++ {
+					a.refs = append(a.refs, c16Ref{id: fmt.Sprint(k), prop: 'v'})
+				}
+				break
+			}
 		}
 	}
 }
@@ -805,20 +870,22 @@ func (a *c16Act) src() string {
 	var f, args []string
 	for _, ref := range a.refs {
 		if ref.prop == 'v' {
-			f = append(f, "%v")
+			f = append(f, "%s")
+			args = append(args, "VShow("+ref.src()+")")
 		} else {
 			f = append(f, "%d")
+			args = append(args, ref.src())
 		}
-		args = append(args, ref.src())
 	}
-	id := "$$"
-	pre := "$$ = VNew(\"" + a.label + "\"); "
-	if a.kind == 2 {
-		// list bodies only log: the value of a list nonterminal stays nil
-		id = "VNew(\"" + a.label + "\")"
-		pre = ""
+	pre := "vid := VNew(\"" + a.label + "\"); "
+	switch a.kind {
+	case 0:
+		pre += "$$ = " + c16Conv(a.lhsType) + "(vid); "
+	case 1:
+		pre += "$$ = vid; " // the extracted nonterminal is untyped
 	}
-	return "{ " + pre + "VLog = append(VLog, \"fmt\".Sprintf(\"%v@%d(" + strings.Join(f, ",") + ")|%s\", " + id + ", rule, " +
+	// list bodies (kind 2) only log: the value of a list nonterminal stays nil
+	return "{ " + pre + "VLog = append(VLog, \"fmt\".Sprintf(\"%s@%d(" + strings.Join(f, ",") + ")|%s\", vid, rule, " +
 		strings.Join(args, ", ") + ", VStack(stack, lhs))) }"
 }
 
@@ -882,11 +949,16 @@ func (g *c16Gram) TM(name string, optimize bool) string {
 		if t == "COMMA" {
 			val = "sep"
 		}
-		fmt.Fprintf(&sb, "%s {string}: /%s/ { $$ = \"fmt\".Sprintf(\"%s@%%d\", l.tokenOffset) }\n", t, re, val)
+		ty := g.termType[t]
+		fmt.Fprintf(&sb, "%s {%s}: /%s/ { $$ = %s(\"fmt\".Sprintf(\"%s@%%d\", l.tokenOffset)) }\n", t, ty, re, c16Conv(ty), val)
 	}
-	sb.WriteString("\n::parser\n\n%input N0;\n\n")
+	sb.WriteString("\n::parser\n\n%input N0;\n")
+	if g.flag {
+		sb.WriteString("%flag WithX;\n")
+	}
+	sb.WriteString("\n")
 	for i, alts := range g.nts {
-		fmt.Fprintf(&sb, "%s {string}:\n", g.ntName(i))
+		fmt.Fprintf(&sb, "%s {%s}:\n", g.ntName(i), g.ntType[i])
 		for k, rule := range alts {
 			if k == 0 {
 				sb.WriteString("    ")
@@ -986,9 +1058,20 @@ func (d *c16Deriv) inst(parts []*c16Part) *c16Inst {
 type c16Eval struct {
 	tokOff, tokEnd []int // tokOff has one more element: the offset of EOI
 	toks           []string
+	g              *c16Gram
 	seq            int
 	log            []string // expected `label#seq(vals)`
 	acts           []*c16Act
+}
+
+// tokEntry is the stack entry of a shifted token: its value has the declared type of the terminal.
+func (ev *c16Eval) tokEntry(t int) c16Entry {
+	name := ev.toks[t]
+	core := fmt.Sprintf("%s@%d", strings.ToLower(name), ev.tokOff[t])
+	if name == "COMMA" {
+		core = fmt.Sprintf("sep@%d", ev.tokOff[t])
+	}
+	return c16Entry{c16Show(ev.g.termType[name], core), ev.tokOff[t], ev.tokEnd[t]}
 }
 
 func (ev *c16Eval) span(entries []c16Entry, nextTok int) (int, int) {
@@ -1059,15 +1142,12 @@ func (ev *c16Eval) inst(in *c16Inst, pre []c16Entry) (entries []c16Entry, byPos 
 		var e c16Entry
 		switch ch.kind {
 		case 0:
-			e = c16Entry{fmt.Sprintf("%s@%d", strings.ToLower(ev.toks[ch.tok]), ev.tokOff[ch.tok]), ev.tokOff[ch.tok], ev.tokEnd[ch.tok]}
-			if ev.toks[ch.tok] == "COMMA" {
-				e.val = fmt.Sprintf("sep@%d", ev.tokOff[ch.tok])
-			}
+			e = ev.tokEntry(ch.tok)
 		case 1:
 			sub, subPos := ev.inst(ch.sub, nil)
 			o, en := ev.span(sub, ch.tok)
 			id := ev.fire(ch.rule.end, sub, subPos, c16Entry{"", o, en})
-			e = c16Entry{id, o, en}
+			e = c16Entry{c16Show(ch.rule.end.lhsType, id), o, en}
 		case 2:
 			have := false
 			var list c16Entry
@@ -1078,7 +1158,7 @@ func (ev *c16Eval) inst(in *c16Inst, pre []c16Entry) (entries []c16Entry, byPos 
 					pre2 = append(pre2, list)
 					if ch.sepTok[k] >= 0 {
 						t := ch.sepTok[k]
-						pre2 = append(pre2, c16Entry{fmt.Sprintf("sep@%d", ev.tokOff[t]), ev.tokOff[t], ev.tokEnd[t]})
+						pre2 = append(pre2, ev.tokEntry(t))
 					}
 				}
 				ents, bp := ev.inst(it, pre2)
@@ -1096,7 +1176,7 @@ func (ev *c16Eval) inst(in *c16Inst, pre []c16Entry) (entries []c16Entry, byPos 
 		case 3:
 			o := ev.tokOff[ch.tok]
 			id := ev.fire(ch.part.act, entries, byPos, c16Entry{"", o, o})
-			e = c16Entry{id, o, o}
+			e = c16Entry{"s=" + id, o, o}
 		}
 		entries = append(entries, e)
 		if ch.pos > 0 {
@@ -1124,6 +1204,37 @@ func VNew(label string) string {
 	return fmt.Sprintf("%%s#%%d", label, vSeq)
 }
 
+// values of the three declared types, all built from a recognisable core text
+type TV struct{ S string }
+
+func VS(core string) string { return core }
+func VT(core string) *TV    { return &TV{core} }
+func VI(core string) int {
+	h := 7
+	for i := 0; i < len(core); i++ {
+		h = (h*31 + int(core[i])) %% 1000000007
+	}
+	return h
+}
+
+// VShow prints a value together with its dynamic type.
+func VShow(x interface{}) string {
+	switch v := x.(type) {
+	case nil:
+		return "<nil>"
+	case string:
+		return "s=" + v
+	case int:
+		return fmt.Sprintf("i=%%d", v)
+	case *TV:
+		if v == nil {
+			return "t=nil"
+		}
+		return "t=" + v.S
+	}
+	return fmt.Sprintf("?%%T", x)
+}
+
 // VStack prints the parser stack above the bottom sentinel (symbol:value:offset:endoffset) and the new entry.
 func VStack(stack []stackEntry, lhs *stackEntry) string {
 	s := ""
@@ -1134,12 +1245,12 @@ func VStack(stack []stackEntry, lhs *stackEntry) string {
 		if len(s) > 0 {
 			s += ","
 		}
-		s += fmt.Sprintf("%%d:%%v:%%d:%%d", e.sym.symbol, e.value, e.sym.offset, e.sym.endoffset)
+		s += fmt.Sprintf("%%d:%%s:%%d:%%d", e.sym.symbol, VShow(e.value), e.sym.offset, e.sym.endoffset)
 	}
 	if s == "" {
 		s = "-"
 	}
-	return s + "|" + fmt.Sprintf("%%d:%%v:%%d:%%d", lhs.sym.symbol, lhs.value, lhs.sym.offset, lhs.sym.endoffset)
+	return s + "|" + fmt.Sprintf("%%d:%%s:%%d:%%d", lhs.sym.symbol, VShow(lhs.value), lhs.sym.offset, lhs.sym.endoffset)
 }
 `
 
@@ -1196,10 +1307,10 @@ func c16BuildBatch(gps []*GenParser) (*c16Batch, error) {
 		}
 		return strings.Join(%s.VLog, " ") + " => error"
 	}
-	return strings.Join(%s.VLog, " ") + " => " + v
+	return strings.Join(%s.VLog, " ") + " => " + %s.VShow(v)
 }
 
-`, n, n, n, n, n, n, n, n, n, n)
+`, n, n, n, n, n, n, n, n, n, n, n)
 	}
 	main.WriteString("var runners = map[string]func(string) string{\n")
 	for _, gp := range gps {
@@ -1519,11 +1630,11 @@ func c16(c *Ctx) {
 				rule := it.g.nts[0][c.Rng.Intn(len(it.g.nts[0]))]
 				root := d.inst(rule.parts)
 				text, off, end := c16Text(c.Rng, d.toks)
-				ev := &c16Eval{tokOff: off, tokEnd: end, toks: d.toks}
+				ev := &c16Eval{tokOff: off, tokEnd: end, toks: d.toks, g: it.g}
 				ents, bp := ev.inst(root, nil)
 				o, en := ev.span(ents, 0)
 				id := ev.fire(rule.end, ents, bp, c16Entry{"", o, en})
-				sents = append(sents, &sent{it, text, ev, id})
+				sents = append(sents, &sent{it, text, ev, c16Show(rule.end.lhsType, id)})
 				reqs = append(reqs, [2]string{it.gp.Name, text})
 			}
 		}
